@@ -64,7 +64,11 @@ def rec_field(I, obj, attr, node):
         decl.add(d)
     if None in decl and len(decl) == 1:
         return None
-    if len(decl) > 1 or None in decl:
+    if I.spec and len(decl - {None}) == 1 and len(decl) > 1:
+        # inside a spec the field accessor of the one class that declares it is used as a total function (the
+        # surrounding expression guards it with cls_is); no narrowing, so that it can appear under quantifiers
+        decl = decl - {None}
+    elif len(decl) > 1 or None in decl:
         obj2 = narrow_class(I, obj, node)
         return rec_field(I, obj2, attr, node)
     dcls, fty = next(iter(decl))
